@@ -723,9 +723,9 @@ func (client *Client) input() {
 					if codec == nil {
 						call.Error = strErr(ErrUnsupportedCodec.Error())
 					} else {
-						err = codec.Decode(data, call.Reply)
-						if err != nil {
-							call.Error = strErr(err.Error())
+						// a reply that does not decode fails this call only: it must not end the read loop
+						if e := codec.Decode(data, call.Reply); e != nil {
+							call.Error = strErr(e.Error())
 						}
 					}
 				}
